@@ -255,11 +255,19 @@ func checkC09(c *hx.Ctx) {
 	}
 	for ti, t := range ref.KeyTypes {
 		k := universe[ti*3]
-		for hi, kid := range []string{"", "key-1"} {
+		for hi, kid := range []string{"", "key-1", "did:example:123?service=keys&relativeRef=%2Fupdate#<key>"} {
 			for pi, pl := range payloads {
+				if hi == 2 && pi > 0 {
+					continue // the key id with characters JSON encoders escape differently: one payload is enough
+				}
 				hdr := k.Header(kid)
-				j := ref.CompactJWS(k, hdr, pl)
-				gens = append(gens, genuine{k, j, "ref", ref.MustJCS(hdr), pl})
+				if hi < 2 {
+					// (the independent signer is not used for the third key id: the library rebuilds the signing input from the parsed
+					// header with its own serializer, which writes & < > as escapes; the statement fixes the serialization to the
+					// one of the library's signing utilities, so only library-signed JWS are in scope for such a key id)
+					j := ref.CompactJWS(k, hdr, pl)
+					gens = append(gens, genuine{k, j, "ref", ref.MustJCS(hdr), pl})
+				}
 				if (hi+pi)%2 == 0 {
 					lj, err := verifhooks.SignPayload(pl, libSigner(k, kid))
 					if err != nil {
@@ -385,7 +393,18 @@ func checkC09(c *hx.Ctx) {
 			}
 		}
 		// header member added / removed / reordered value
-		for _, hv := range []map[string]interface{}{{"alg": g.key.Alg(), "kid": "other"}, {"alg": g.key.Alg(), "typ": "JWT"}, {"alg": "none"}, {"alg": g.key.Alg() + "x"}, {"kid": "key-1"}, {}} {
+		// members with null values added to the genuine header: the decoded header differs from what was signed
+		var withNull []map[string]interface{}
+		for _, extra := range []string{"typ", "crit", "cty", "x5c", "zzz"} {
+			var base map[string]interface{}
+			if json.Unmarshal(g.header, &base) == nil {
+				if _, has := base[extra]; !has {
+					base[extra] = nil
+					withNull = append(withNull, base)
+				}
+			}
+		}
+		for _, hv := range append(withNull, []map[string]interface{}{{"alg": g.key.Alg(), "kid": "other"}, {"alg": g.key.Alg(), "typ": "JWT"}, {"alg": "none"}, {"alg": g.key.Alg() + "x"}, {"kid": "key-1"}, {}}...) {
 			hb := ref.MustJCS(hv)
 			if string(hb) == string(g.header) {
 				continue
